@@ -283,6 +283,43 @@ def reader_table(facts, f):
             if len(vs) == 1:
                 for l in lits:
                     out[l] = next(iter(vs))
+    if out:
+        return out
+    # `let flag = d.read_bool()?; if flag { Ok(V1(..)) } else { Ok(V2(..)) }`: read_bool is `read_u8()? == LIT`
+    rb = facts.fns.get("savefile::Deserializer<'_, TR>::read_bool")
+    lit = None
+    if rb is not None:
+        for y in walk(rb["body"]):
+            if y.get("k") == "Bin" and y["op"] == "Eq":
+                for side in (y["l"], y["r"]):
+                    q = peel(side)
+                    if q.get("k") == "Lit" and "int" in q:
+                        lit = q["int"]
+    flags = set()
+    for x in walk(f["body"]):
+        if x.get("k") == "LetS" and x["pat"].get("k") == "Bind" and x.get("init") is not None:
+            i = x["init"]
+            while i.get("k") in ("Try", "Ref", "Deref"):
+                i = i["e"]
+            if i.get("k") == "Call" and (callee(i) or "").endswith("::read_bool"):
+                flags.add(x["pat"]["v"])
+
+    def returned_variant(n):
+        n = peel_block(peel(n))
+        if n.get("k") == "Block":
+            n = peel_block(n["e"]) if n.get("e") is not None else {}
+        if n.get("k") == "Adt" and n.get("adt") == "core::result::Result" and n.get("variant") == "Ok" and n.get("fields"):
+            inner = peel_block(peel(n["fields"][0]["e"]))
+            if inner.get("k") == "Adt" and inner.get("adt") == adt:
+                return inner["variant"]
+        return None
+    if lit is not None:
+        for x in walk(f["body"]):
+            if x.get("k") == "If" and peel(x["c"]).get("k") == "Var" and peel(x["c"])["v"] in flags and x.get("f") is not None:
+                t, e = returned_variant(x["t"]), returned_variant(x["f"])
+                if t and e:
+                    out[lit] = t
+                    out["else"] = e
     return out
 
 
@@ -309,6 +346,9 @@ def w2(facts, tier):
         for v, l in sorted(wt.items(), key=lambda kv: kv[1]):
             if l in rt and rt[l] != v:
                 bad.append(f"variant {v} is written as {l} but {l} is read back as {rt[l]}")
+            elif l not in rt and "else" in rt:
+                if rt["else"] != v:
+                    bad.append(f"variant {v} is written as {l} but every tag other than {[k for k in rt if k != 'else']} is read back as {rt['else']}")
             elif l not in rt:
                 bad.append(f"variant {v} is written as {l} which the reader does not map to a variant")
         yield ob(["C01", "C02", "C13"], "W2", ty, "violation" if bad else "pass", where(wf),
@@ -1250,7 +1290,9 @@ def q7(facts, tier):
     rng = next((t[2] for t in loopv if len(t) > 2), None)
     full = isinstance(rng, tuple) and rng[0] == "call" and rng[1].endswith("RangeInclusive::new") and rng[2][0] == ("const", 0) \
         and isinstance(rng[2][1], tuple) and rng[2][1][0] == "call" and rng[2][1][1].endswith("get_latest_version")
-    yield ob(["C15"], "Q7", "loop-covers-all-versions", "pass" if full else ("undecided" if rng is None else "violation"), where(f),
+    is_range = isinstance(rng, tuple) and ((rng[0] == "call" and rng[1].endswith("RangeInclusive::new")) or
+                                             (rng[0] == "adt" and str(rng[1]).endswith("ops::range::Range")))
+    yield ob(["C15"], "Q7", "loop-covers-all-versions", "pass" if full else ("violation" if is_range else "undecided"), where(f),
              "the ledger loop runs over 0..=T::get_latest_version()" if full else f"the ledger loop runs over {show_term(rng)}, not 0..=latest")
     for c, a, n in saves:
         ok = len(a) >= 3 and def_of_loop(a[2])
